@@ -5,6 +5,7 @@ import json
 import os
 import sys
 import time
+import threading
 import traceback
 
 from . import common
@@ -89,7 +90,13 @@ def main():
         time.sleep(budget)
         s = common.Suite("harness")
         s.rule = "the check did not finish within its time budget of %d s" % budget
-        s.disagree({"harness": "budget exceeded", "budget_s": budget}, "the suites of this check finish (they take a few minutes on the unchanged tree)",
+        where = []
+        try:
+            main_frame = sys._current_frames().get(threading.main_thread().ident)
+            where = [ln.strip().replace("\n", " | ") for ln in traceback.format_stack(main_frame) if "/harness/" in ln][-6:]
+        except Exception:      # noqa
+            pass
+        s.disagree({"harness": "budget exceeded", "budget_s": budget, "stuck_in": where}, "the suites of this check finish (they take a few minutes on the unchanged tree)",
                    "still running after %d s: the code under test keeps the harness waiting (a wedged task / lock / query); no verdict could be reached" % budget)
         try:
             faulthandler.dump_traceback(file=sys.stderr)
@@ -98,7 +105,6 @@ def main():
         rc = common.conclude(pid, a.tier, seed, t0, proof, [s], getattr(mod, "ASSUMPTIONS", ()))
         sys.stdout.flush()
         os._exit(rc if rc else 1)
-    import threading
     threading.Thread(target=watchdog, daemon=True).start()
     try:
         suites = mod.run(a.tier, seed)
